@@ -23,12 +23,12 @@ class Table:
     def missing(self):
         return [k for k, v in self.methods.items() if v is None]
 
-    def step(self, method, st, child_result="Continue", fresh="n"):
+    def step(self, method, st, child_result="Continue", fresh="n", fail_at=None):
         """returns (events, new state, return value)"""
-        key = (method, st.key(), child_result, fresh)
+        key = (method, st.key(), child_result, fresh) if fail_at is None else (method, st.key(), child_result, fresh, fail_at)
         if key in self.cache:
             return self.cache[key]
-        m = Machine(self.facts, St(st.variant, st.fields), child_result=child_result)
+        m = Machine(self.facts, St(st.variant, st.fields), child_result=child_result, fail_at=fail_at)
         body = self.methods[method]
         args = {1: ("ref", "self")}
         if method in ("register", "reregister"):
@@ -61,6 +61,7 @@ def explore(facts, max_depth=6, bursts=None):
     extraction_errors = {}
     samples = []
     transitions = 0
+    failures_explored = [0]
 
     def apply(conf, ops):
         """conf = (St, frozenset(registered payload ids), parent_registered, next_id). ops = list of
@@ -151,6 +152,38 @@ def explore(facts, max_depth=6, bursts=None):
             moves.append(([("replace", None)], False))
             moves.append(([("map", None)], False))
             moves.append(([("register", None)], False))
+        # failing children: a failed (re/un)registration must not lose a child
+        for method in (("reregister", "unregister") if P else ("register",)):
+            try:
+                ev0, _, _ = tab.step(method, st, None, "p%d" % nid)
+            except Unsupported:
+                continue
+            nops = len([e for e in ev0 if e[0] == "child"])
+            for k in range(nops):
+                try:
+                    evs, st_f, ret_f = tab.step(method, st, None, "p%d" % nid, fail_at=k)
+                except Unsupported as e:
+                    extraction_errors["%s x %s (child op %d fails)" % (st.variant, method, k)] = str(e)
+                    continue
+                failures_explored[0] += 1
+                failed = [e for e in evs if e[0] == "child-failed"]
+                dropped = {e[1] for e in evs if e[0] == "drop"}
+                reg2 = set(reg)
+                for e in evs:
+                    if e[0] == "child" and e[1] == "register":
+                        reg2.add(e[2])
+                    if e[0] == "child" and e[1] == "unregister":
+                        reg2.discard(e[2])
+                owned = set(st_f.fields.values())
+                cell = "%s x %s [child op #%d fails]" % (st.variant, method, k)
+                lost = (set(st.fields.values()) - owned - {p for p in dropped if p not in reg2}) | {p for p in dropped if p in reg2}
+                if failed and failed[0][2] not in owned:
+                    key = "%s: the child whose %s failed is no longer owned by the wrapper (the error hands back an empty wrapper; a retry registers nothing)" % (cell, failed[0][1])
+                    findings.setdefault(key, {"history": hist + ["%r --%s fails--> %r" % (st, method, st_f)], "what": key.split(": ", 1)[1], "cell": cell})
+                for pdr in dropped:
+                    if pdr in reg2:
+                        key = "%s: child dropped while still registered" % cell
+                        findings.setdefault(key, {"history": hist + ["%r --%s fails--> %r" % (st, method, st_f)], "what": "child dropped while still registered", "cell": cell})
         for ops, then_rereg in moves:
             seq = list(ops)
             label = "+".join(m if r is None else "%s(%s)" % (m, r) for m, r in seq) or "update"
@@ -196,6 +229,10 @@ def explore(facts, max_depth=6, bursts=None):
                 seen.add(k)
                 dq.append((c2, depth + 1, hist + ["%r --%s--> %r" % (conf[0], label, c2[0])]))
     table = []
-    for (method, skey, cr, fresh), (events, st2, ret) in sorted(tab.cache.items(), key=lambda kv: str(kv[0])):
+    for kk, (events, st2, ret) in sorted(tab.cache.items(), key=lambda kv: str(kv[0])):
+        if len(kk) != 4:
+            continue
+        method, skey, cr, fresh = kk
         table.append({"cell": "%s x %s%s" % (skey[0], method, "(%s)" % cr if method == "process_events" and skey[0] == "Keep" else ""), "child_ops": ["%s(%s)" % (e[1], e[2]) if e[0] == "child" else "%s(%s)" % (e[0], e[1]) for e in events], "next": repr(st2), "returns": repr(ret[1]) if ret and ret[0] == "result" else ""})
-    return {"table": table, "states": len(seen), "transitions": transitions, "cells": tab.cells, "findings": findings, "extraction_errors": extraction_errors, "samples": samples, "variants": variants}
+    table = [r for r in table if True]
+    return {"failure_cells": failures_explored[0], "table": table, "states": len(seen), "transitions": transitions, "cells": tab.cells, "findings": findings, "extraction_errors": extraction_errors, "samples": samples, "variants": variants}
